@@ -54,44 +54,20 @@ Proof.
   split; [right; left; reflexivity|]. split; vm_compute; discriminate.
 Qed.
 
-(* residual oversize after the F5 repair *)
-Lemma oversized_remainder_refuted_l : exists w sz max a out q,
-  merge_split w sz max a None = Some out /\ In q out /\
-  max < payload_size w sz (rp q) /\ length (items_of (rp q)) = 2%nat.
-Proof.
-  exists w_unit, Bytes, 30, f5_req. eexists; eexists. split; [vm_compute; reflexivity|]. split; [left; reflexivity|].
-  split; vm_compute; reflexivity.
-Qed.
-
-(* request 2 of foreign_evs reports an error although every batch holding one of its ids was exported successfully *)
-Lemma done_error_only_items_refuted_l :
-  let '(batches, fired) := model_bat 2 3 3 foreign_evs in
-  In (2, 1) fired /\
-  forall b ids, nth_error batches b = Some ids -> (exists x, In x ids /\ In x [3;4;5;6;7]) ->
-                ~ In (2, [Z.of_nat b], 1) foreign_evs.
-Proof.
-  rewrite foreign_error_witness. split; [cbn; auto|].
-  intros b ids Hb [x [Hx1 Hx2]] Hin.
-  destruct b as [|[|[|b]]]; cbn in Hb.
-  - injection Hb as <-. cbn in Hx1, Hx2. intuition (subst; discriminate).
-  - vm_compute in Hin. intuition discriminate.
-  - vm_compute in Hin. intuition discriminate.
-  - destruct b; discriminate Hb.
-Qed.
-
 Section Batcher.
   Context {R : Type}.
   Variable msplit : R -> option R -> option (list R).
   Variable sizeof : R -> Z.
+  Variable icount : R -> Z.
   Variable min_size : Z.
 
   Lemma done_exactly_once_l2 : forall es i,
-    let st := fst (brun msplit sizeof min_size es) in
+    let st := fst (brun msplit sizeof icount min_size es) in
     b_cur st = None -> b_flying st = [] ->
     (i < length (filter (fun e => match e with EConsume _ => true | _ => false end) es))%nat ->
     fcount i (b_fired st) = 1.
   Proof.
-    intros es i st Hc Hf Hi. apply (done_exactly_once_l msplit sizeof min_size es i Hc Hf).
+    intros es i st Hc Hf Hi. apply (done_exactly_once_l msplit sizeof icount min_size es i Hc Hf).
     rewrite run_count. exact Hi.
   Qed.
 End Batcher.
